@@ -74,3 +74,6 @@ def run(ctx):
     scope = [f for f in closure if f.module.name.startswith("hed.validator")]
     ctx.floor("R1.3", "validator functions in closure", len(scope), 45)
     check_no_dropped_issues(ctx, "R1.3", scope)
+    ctx.rule("R1.4", "the delimiter scan decides on the blank-stripped form of the accumulated text (empty-delimiter rule)")
+    from rules.c04 import delimiter_scan_rule
+    delimiter_scan_rule(ctx, "R1.4")
